@@ -6,6 +6,7 @@ import RTV.Drv.Factory
 import RTV.Drv.Re
 import RTV.Drv.Cal
 import RTV.Drv.DtRes
+import RTV.Drv.Span
 /-! Model driver: one operation per input line (tab-separated), one answer line per operation.
 Run compiled (`.lake/build/bin/rtvdriver`) or with `lake env lean --run Driver.lean`. -/
 open RTV.Drv
@@ -21,6 +22,7 @@ def dispatch (line : String) : String :=
       <|> dispatchCal op args
       <|> dispatchDtRes op args
       <|> dispatchNum op args
+      <|> dispatchSpan op args
       -- <|> dispatchOther op args   (one alternative per layer)
       ).getD "bad-op"
   | _ => "bad-op"
